@@ -139,6 +139,9 @@ func genWS(seed uint64) lib.Case {
 		if lost {
 			break
 		}
+		if head > sentinel {
+			sentinel = head
+		}
 		sentinel += uint64(r.Range(1, 3))
 		head = sentinel
 		sop := latestOp{Op: "update", N: sentinel, Hash: cachesim.Hash32(1000 + 10*sentinel)}
